@@ -8,43 +8,56 @@ from common import sh2
 LEVEL = "proof"
 MANIFEST = {
     "technique": "Coq proof over a hand-written Gallina model of the box codec (header, container recursion, prefixed containers "
-                 "stsd/dref/sample entries, unknown boxes, 55 leaf box types incl. the esds descriptor tree, the uuid variants and sgpd with its entries, the box loop of a file) + differential correspondence "
-                 "(extracted OCaml vs Go) + failing-input search on all registered box types whose mutant failures are labelled "
-                 "by the model's proved-complete reasons",
+                 "stsd/dref/sample entries/ISO meta/wvtt, the look-ahead of DecodeMetaSR, unknown boxes, 69 leaf table entries incl. the esds "
+                 "descriptor tree, the uuid variants, sgpd with its entries, iTunes data, the WebVTT boxes; the box loop of a file AND the "
+                 "File-level acceptance rules of DecodeFileSR) + differential correspondence (extracted OCaml vs Go, single boxes and whole "
+                 "files) + failing-input search on all registered box types and on whole files, whose mutant failures are labelled by the "
+                 "model's proved-complete reasons",
     "level_text": "PROOF for the modelled universe (coq/c01/C01Theorems.v): header round trip both ways; for each of the leaf "
                   "kinds ftyp styp free skip mdat mfhd tfhd tfdt trun mvhd tkhd sidx trex mdhd hdlr stts stsc stsz stco co64 stss sdtp "
                   "ctts elst saiz saio sbgp prft tenc frma vmhd smhd nmhd sthd mfro mehd tfra pssh url avcC btrt pasp colr clap schm cslg senc(raw) emsg elng kind hvcC subs esds(ES_Descriptor, DecoderConfig with nested descriptors, DecSpecificInfo, SLConfig, raw descriptors, UnknownData, size fields of any width) uuid(tfxd, tfrf, PIFF senc, unknown) sgpd(seig roll rap alst unknown entries) "
-                  "and the field prefixes of stsd, dref, VisualSampleEntry (avc1 avc3 hvc1 hev1 encv av01 vp08 vp09) and AudioSampleEntry "
-                  "(mp4a enca ac-3 ec-3), everything the decoder accepts is reproduced from the decoded value plus the captured bytes "
-                  "(C01_leaf_lossless_stage1..3 = one conjunct per kind, C01_leaf_table, C01_pre_table); C01_tree: every slice accepted by the model of DecodeBoxSR "
-                  "(pure containers moov trak mdia minf stbl moof traf mvex dinf edts udta sinf schi mfra tref, prefixed containers, unknown "
-                  "boxes, the leaves above, any nesting) whose tree is exact re-encodes bit for bit; C01_file_tree: the same for a "
-                  "concatenation of top-level boxes (box loop of DecodeFileSR, File.Encode in box-tree mode); C01_why_complete / "
+                  "data(type indicator, locale, value) mime vttC vlab ctim iden sttg payl vtta vtte vsid "
+                  "and the field prefixes of stsd, dref, VisualSampleEntry (avc1 avc3 hvc1 hev1 encv av01 vp08 vp09), AudioSampleEntry "
+                  "(mp4a enca ac-3 ec-3), wvtt and the ISO form of meta, everything the decoder accepts is reproduced from the decoded value plus the captured bytes "
+                  "(C01_leaf_lossless_stage1..3,5 = one conjunct per kind, C01_leaf_table, C01_pre_table); C01_tree: every slice accepted by the model of DecodeBoxSR "
+                  "(pure containers moov trak mdia minf stbl moof traf mvex dinf edts udta sinf schi mfra tref ilst (c)ART (c)nam (c)too (c)cpy desc vttc and the "
+                  "QuickTime form of meta chosen by the look-ahead of DecodeMetaSR, prefixed containers, unknown "
+                  "boxes, the leaves above, any nesting) whose tree is exact re-encodes bit for bit; C01_why_complete / "
                   "C01_explained: the model's list of reasons for not reproducing an input (why_box) is complete -- no reason, then the "
                   "Go encoders' bytes ARE the input; C01_fixpoint (GENERAL, no hypothesis on the reserved bytes): for every slice "
                   "accepted completely with an exact tree t the Go encoders succeed on both API paths (Box.Encode with its per-box "
                   "capacities and the 2^32 limit, Box.EncodeSW) with the same bytes enc of the input's length = Size(), enc decodes "
-                  "again to norm_box t (= t up to the captured reserved bytes) and encodes to enc again on both paths; "
-                  "C01_file_boxtree: the same for a file (box-tree mode and progressive files: File.Encode = Box.Encode per child "
-                  "in decode order) -- "
-                  "they rest on C01_header_local / C01_leaf_stable: every decoder of the "
-                  "dispatch tables is local (never looks behind the bytes it consumes) and print-then-parse holds for every leaf "
-                  "kind (decoder applied to the encoder's bytes returns the same value, for all values the decoder can return); "
-                  "for esds the exactness guard (hence C01_tree / C01_fixpoint) asks that every descriptor size field is in the encoder's form and "
-                  "that no UnknownData was kept (C01_esds_core; others are explored; C01_esds_slconfig_size_fixed); "
-                  "every excluded shape / defect class is witnessed by a *_refuted theorem; complete real files (an init segment and a "
-                  "media segment of /repo testdata) decode inside Coq, are exact and re-encode to themselves (C01_real_*). EXPLORATION "
-                  "for every other registered box type (all ~150 reached through harvested testdata boxes, hand-written seeds, "
-                  "structured valid variants -- esds descriptor orders and size encodings, sample-entry child orders, sgpd/uuid variants -- "
-                  "and mutations): masked byte equality, second decode, third encode on the real implementation.",
-    "level_note": "Trusted: Coq kernel, extraction, OCaml/Go glue, the hand transcription of the Go text into C01Model.v (tied to "
+                  "again to norm_box t (= t up to the captured reserved bytes) and encodes to enc again on both paths (for meta: the "
+                  "re-encoding keeps the eight header bytes of the first child that the look-ahead reads, reenc_hdr); "
+                  "FILE LEVEL: decode_file_sr models the loop of DecodeFileSR with the rules that are not box-local (moov needs the "
+                  "first-trak/mdia/minf/stbl/stts chain; mdat placement for fragmented and progressive files; traf with unparsed senc "
+                  "needs a tfhd when a moov is there; isFragmented; a cut-short mdat ends the loop; trailing bytes / size-0 headers refused); "
+                  "C01_file_rules: the loop = box loop + rules; C01_file_accepted: for EVERY byte string the loop accepts with exact trees, "
+                  "File.Encode (Box.Encode per child: progressive files and box-tree mode) and File.EncodeSW succeed with the same bytes of the "
+                  "input's length, which are accepted AGAIN with the same trees up to captured bytes and the same IsFragmented(), and "
+                  "encode to themselves; examples: progressive files with the mdat before and after the moov, a fragmented file, refused "
+                  "files; C01_file_boxtree: the same without the rules; "
+                  "they rest on C01_header_local / C01_leaf_stable: print-then-parse holds for every entry of the dispatch tables; "
+                  "for esds the exactness guard asks that every descriptor size field is in the encoder's form and "
+                  "that no UnknownData was kept, for sgpd that every seig reserved byte is 0, for wvtt that the prefix was read "
+                  "(C01_esds_size_overflow_refuted, C01_sgpd_seig_reserved_refuted, C01_wvtt_short_refuted; an esds with UnknownData is "
+                  "reproduced but only explored); "
+                  "every excluded shape / defect class is witnessed by a *_refuted theorem (file level: C01_file_truncated_mdat_refuted); "
+                  "complete real files and a real udta{meta{hdlr ilst{(c)too{data}}}} box in both MetaBox forms decode inside Coq, are "
+                  "exact and re-encode to themselves (C01_real_*, C01_ex_meta_*). EXPLORATION "
+                  "for every other registered box type (stpp dac3 dec3 av1C vpcC emib ... reached through harvested testdata boxes, hand-written seeds, "
+                  "structured valid variants and mutations) and for files that reach TrafBox.ParseReadSenc: masked byte equality, second decode, third encode on the real implementation.",
+    "level_note": "Trusted: Coq kernel, extraction, OCaml/Go glue, the hand transcription of the Go text into C01Model.v / C01FileModel.v (tied to "
                   "/repo by the correspondence run on every check), the scanner and generators of the harness. The model follows "
                   "the SliceReader path; reader-path differences are counted, not modelled (C03). esds fuel: box size + 65536 (descriptor count and nesting of slices below 128 KiB), beyond that the model answers OutOfFuel. Not modelled: "
-                  "the per-sample structure of senc (kept raw, as DecodeSencSR does), wvtt, stpp, meta/ilst (explored only); the File-level acceptance checks of "
-                  "DecodeFileSR (moov stts chain, mdat placement, senc parsing). c01_dontcare.json: entries with source=model are "
+                  "the per-sample structure of senc (kept raw, as DecodeSencSR does) and hence TrafBox.ParseReadSenc at the File level (separate "
+                  "outcome FSencParse, compared with nothing; C02/C04 model the parse), stpp (its child loop counts consumed bytes: a third loop kind), "
+                  "dac3, dec3 (explored only), DecodeFile's reader path, lazy mdat mode and the DecISMFlag mfra look-up. "
+                  "c01_dontcare.json: entries with source=model are "
                   "regenerated from the model (rsv_dc marks which captured chunks are ISO reserved) on every run; source=hand entries are "
                   "hand-written. Search failures of mutants made of modelled types are labelled with the model's reason (a failing mutant "
-                  "without a reason is a violation); for other types the class only says how the output differs.",
+                  "without a reason is a violation); for other types the class only says how the output differs. The file-level search reports "
+                  "only what the File level adds (every top-level box reproduced alone, the file not).",
 }
 
 DONTCARE = os.path.join(common.ROOT, "c01_dontcare.json")
@@ -249,12 +262,14 @@ def run(ctx):
     ctx.cov["trusted_base"] = common.TRUSTED_BASE_COMMON + [
         "model: coq/c01/C01Model.v is a hand transcription of mp4/box.go, boxsr.go, container.go, unknown.go and of the "
         "DecodeXxxSR / EncodeSW / Size of every modelled kind (see MANIFEST), avc.DecodeAVCDecConfRec, hevc.DecodeHEVCDecConfRec, "
-        "mp4/descriptors.go (esds), samplegroupentries.go (sgpd), uuid.go, stsd/dref/sample entry "
-        "child loops, moov.AddChild, moof.EncodeSW, edts decode (SliceReader path; io errors not modelled)",
+        "mp4/descriptors.go (esds), samplegroupentries.go (sgpd), uuid.go, meta.go, ffmpeg.go, wvtt.go, mime.go, stsd/dref/sample entry "
+        "child loops, moov.AddChild, moof.EncodeSW, edts decode (SliceReader path; io errors not modelled); coq/c01/C01FileModel.v: "
+        "the loop of DecodeFileSR (mp4/boxsr.go:206), File.AddChild / startSegmentIfNeeded as far as isFragmented goes, "
+        "firstTrakSttsEntries, MoovBox.IsEncrypted, File.Encode / EncodeSW in box-tree mode",
         "c01_dontcare.json: source=model entries regenerated from the model; source=hand entries written by hand",
         "harness/c01/bx: independent box scanner, harvest of testdata boxes, generators, mutators, masks",
     ]
-    ctx.assumptions += ["inputs are byte slices handed to DecodeBoxSR (and, in the search, also to DecodeBox over a bytes.Reader)",
+    ctx.assumptions += ["inputs are byte slices handed to DecodeBoxSR / DecodeFileSR (and, in the search, also to DecodeBox / DecodeFile over a bytes.Reader), default options",
                         "box sizes below 2^32 except mdat; slices below 300 KB in the search, 20 KB in the correspondence"]
     exe, model = build(ctx)
     check_dontcare(ctx, model)
@@ -289,6 +304,9 @@ def run(ctx):
                        "hand-generated well-formed boxes and trees of the modelled kinds, and structured mutants of both "
                        "(version 0..3, flag bits, counts +-1, large-size header, trailing bytes, truncations, size field +-k, "
                        "random/ff/00 bytes, nested mutations); distinct = distinct input byte strings; "
+                       "whole files: hand-built files (progressive with mdat before/after moov, fragmented, refused ones), every testdata file "
+                       "(mdat payloads cut to 16 bytes above 20000 bytes), random top-level sequences of pooled/generated boxes, mutants of the "
+                       "top-level sequence (box dropped/doubled/swapped, mdat/moof/styp/moov inserted, trailing bytes, cut-short mdat, size 0); "
                        "search: harvested boxes of ALL types + hand-written seeds for rare types + structured valid variants "
                        "(esds descriptor orders x size-of-size 1..4 x optional fields, sample entry child permutations, sgpd/uuid) "
                        "+ mutants, through both decoders: "
